@@ -37,6 +37,7 @@ type Flavour struct {
 	Nil                                                                bool             // nil values and empty containers in operands
 	Meta                                                               bool             // create with source metadata
 	MoveBias                                                           bool             // bias towards element-moving operations (C15)
+	Reattach                                                           bool             // configs removed from a tree are attached again with SetChild (also part of MoveBias)
 }
 
 // W is the world of one run.
@@ -1338,7 +1339,7 @@ func (w *W) opSetChild() string {
 		existing = w.pick(cands, "setchild-root")
 	case 2:
 		// a config that was attached elsewhere and has been removed / replaced there
-		if w.F.MoveBias && !w.R.Avoid["O11"] && len(w.detached) > 0 {
+		if (w.F.MoveBias || w.F.Reattach) && !w.R.Avoid["O11"] && len(w.detached) > 0 {
 			existing = w.detached[w.R.T.Choose(len(w.detached), "setchild-detached")]
 			w.detached = nil
 		}
